@@ -154,6 +154,12 @@ def paintSvgs (fetcher : Fetcher) (opts : Opts) (info : List (Nat × List SvgIte
     let (c2, e2) := paintSvgs fetcher opts info c1 rest
     (c2, e1 ++ e2)
 
+/-- pdf/__init__.py `generate_pdf`: the `/Names /EmbeddedFiles` name tree of the catalog is made only
+`if pdf_attachments:` — when at least one attachment was really embedded (`write_pdf_attachment` returned a file
+specification, not `None`); it then holds one name per embedded file.  `none`: no name tree in the catalog. -/
+def embeddedFilesTree (embedded : List Nat) : Option Nat :=
+  if embedded.isEmpty then none else some embedded.length
+
 structure DocOut where
   cssLog : List Ev := []            -- stylesheet and font fetch events, in order
   rules : List Nat := []
